@@ -11,7 +11,7 @@ REPLAY_DIR = os.environ.get("LP_REPLAY_DIR", os.path.join(VERIF, "replays"))
 KNOWN = os.path.join(VERIF, "known_findings.json")
 
 QUICK = {"topup": 24, "vest": 60, "reserve": 40, "deploy": 8, "life": 120, "fy": 24, "chunks": 20, "perm": 2, "alloc": 30, "timeline": 16}
-THOROUGH = {"topup": 100, "vest": 300, "reserve": 200, "deploy": 40, "life": 600, "fy": 80, "chunks": 60, "perm": 8, "alloc": 120, "timeline": 60}
+THOROUGH = {"topup": 300, "vest": 900, "reserve": 600, "deploy": 120, "life": 1800, "fy": 240, "chunks": 180, "perm": 24, "alloc": 360, "timeline": 180}
 
 
 def job_list(pid, tier, seed):
